@@ -249,6 +249,11 @@ def c04e(tree, ob):
             if kind == 'assign' and isinstance(val, ast.Call) and dotted(val.func) == 'min' and len(val.args) == 2 and not val.keywords:
                 if any(src(a) == 'self._sessinit_peer.segment_mru' for a in val.args):
                     ok = True
+                else:
+                    # the bound given a name first (a local that holds the peer's MRU)
+                    fvw = FuncView(tree, SESS, qual)
+                    if any(isinstance(a, ast.Name) and src(fvw.value_at(a, stmt, depth=2)) == 'self._sessinit_peer.segment_mru' for a in val.args):
+                        ok = True
             if ok:
                 ob.site(SESS, stmt, 'write is min(..., peer segment MRU) in ' + qual)
             else:
